@@ -970,6 +970,83 @@ static Str opPar(const Toks& t)
 	return "bad " + str(ok) + "/" + str(n * rounds) + " " + bad;
 }
 
+// sockio w <bodyspec> <sched>         asl Socket::write over a socketpair whose peer drains in pieces
+// sockio r <bodyspec> <cuts> <size>    asl Socket::read(buf, size) while the peer sends in pieces (then closes)
+struct IoPeer {
+	int fd; bool reader; Str data; std::vector<size_t> sched; Str got;
+	static void* run(void* p)
+	{
+		IoPeer* io = (IoPeer*)p;
+		if (io->reader) {
+			char buf[65536];
+			size_t k = 0;
+			for (;;) {
+				size_t want = io->sched.empty() ? sizeof buf : io->sched[k % io->sched.size()];
+				if (want == 0) want = 1;
+				if (want > sizeof buf) want = sizeof buf;
+				ssize_t n = recv(io->fd, buf, want, 0);
+				if (n <= 0) break;
+				io->got.append(buf, (size_t)n);
+				if ((k++ & 7) == 0) usleep(30);
+			}
+		}
+		else {
+			sendPieces(io->fd, io->data, io->sched);
+			shutdown(io->fd, SHUT_WR);
+		}
+		return 0;
+	}
+};
+
+static Str opSockio(const Toks& t)
+{
+	if (t.size() < 4) return "bad-op";
+	Str data;
+	if (!bodyOf(t[2], data)) return "bad-op";
+	int fds[2];
+	if (socketpair(AF_UNIX, SOCK_STREAM, 0, fds) != 0) return "err socketpair";
+	int small = 4096;
+	setsockopt(fds[0], SOL_SOCKET, SO_SNDBUF, &small, sizeof small);
+	setsockopt(fds[1], SOL_SOCKET, SO_RCVBUF, &small, sizeof small);
+	IoPeer io;
+	io.fd = fds[1];
+	Str out;
+	if (t[1] == "w") {
+		io.reader = true;
+		io.sched = cutsOf(t[3], 1u << 30);
+		pthread_t th;
+		pthread_create(&th, 0, IoPeer::run, &io);
+		{
+			Socket s(fds[0]);
+			Exact d(data);
+			int ret = s.write(d.p, (int)d.n);
+			out = str(ret) + " ";
+			shutdown(fds[0], SHUT_WR);
+			pthread_join(th, 0);
+		} // closes fds[0]
+		out += digest(io.got);
+	}
+	else {
+		if (t.size() != 5) { close(fds[0]); close(fds[1]); return "bad-op"; }
+		io.reader = false;
+		io.data = data;
+		io.sched = cutsOf(t[3], data.size());
+		int size = atoi(t[4].c_str());
+		pthread_t th;
+		pthread_create(&th, 0, IoPeer::run, &io);
+		{
+			Socket s(fds[0]);
+			char* buf = (char*)malloc((size_t)size + 1);
+			int ret = s.read(buf, size);
+			out = str(ret) + " " + digest(buf, (size_t)(ret > 0 ? ret : 0)) + " " + (s.error() ? "1" : "0");
+			free(buf);
+			pthread_join(th, 0);
+		}
+	}
+	close(fds[1]);
+	return out;
+}
+
 static std::string step(const Toks& t)
 {
 	const std::string& op = t[0];
@@ -978,6 +1055,7 @@ static std::string step(const Toks& t)
 	if (op == "cread") return opCread(t);
 	if (op == "raw") return opRaw(t);
 	if (op == "big") return opBig(t);
+	if (op == "sockio") return opSockio(t);
 	if (op == "par") return opPar(t);
 	if (op == "options") { optionsToHandler = t.size() > 1 && t[1] == "1"; return "ok"; }
 	return "bad-op";
